@@ -101,8 +101,17 @@ func (p *PacketProcessor) ProcessPacketData(data []byte, _ *gopacket.CaptureInfo
 	return
 }
 
+// validPacket checks that exactly the expected header chain was decoded from this packet,
+// otherwise some of the reused layer structs still hold data of a previous packet
 func validPacket(decoded []gopacket.LayerType) bool {
-	return len(decoded) == 3 || (len(decoded) == 2 && decoded[0] == layers.LayerTypeIPv4)
+	switch len(decoded) {
+	case 3:
+		return decoded[0] == layers.LayerTypeEthernet &&
+			decoded[1] == layers.LayerTypeIPv4 && decoded[2] == layers.LayerTypeICMPv4
+	case 2:
+		return decoded[0] == layers.LayerTypeIPv4 && decoded[1] == layers.LayerTypeICMPv4
+	}
+	return false
 }
 
 type PacketFiller struct {
